@@ -81,7 +81,8 @@ def run(tier, replay=None):
         inp2 = os.path.join(wd, "in2.txt"); open(inp2, "w").write(" ".join(map(str, toks2)))
         for cpu in ("base", "sse", "avx", "avx2", "avx512", "avx2gfni"):
             d2, r2 = os.path.join(wd, "c09-%s.ndjson" % cpu), os.path.join(wd, "res-%s.json" % cpu)
-            sh([hc, inp2, d2, str(seed() % 100000 + 1), "997"], timeout=3300, env={"VERIF_CPU": cpu})
+            blen = {"base": 96, "sse": 97, "avx": 173, "avx2": 80, "avx512": 200, "avx2gfni": 173}[cpu]        # (block lengths that leave different remainders for the kernels' 16 / 32 / 64 / 96-byte stages)
+            sh([hc, inp2, d2, str(seed() % 100000 + 1), "997", str(blen)], timeout=3300, env={"VERIF_CPU": cpu})
             tlc("trace/TraceC09", wd=wd, env={"VERIF_IN": d2, "VERIF_OUT": r2}, timeout=3000, xmx="8g")
             o2, rc2 = read_ndjson(r2)[0], read_ndjson(d2)
             cpu_sets += [x for x in rc2 if x["t"] == "summary"][0]["sets"]
